@@ -314,6 +314,7 @@ func faultScenario(p faultParams) func() {
 			if m := countsRe.FindStringSubmatch(rerr.Error()); m != nil {
 				if m[1] != fmt.Sprint(len(p.failing)) || m[2] != fmt.Sprint(healthy) {
 					fail("C07/counts", key, "%s: Incomplete reports errors=%s replies=%s with %d failing and %d healthy nodes", name, m[1], m[2], len(p.failing), healthy)
+					fail("C02/incomplete-counts", key, "%s: Incomplete reports errors=%s replies=%s although %d node(s) failed and %d replied: the call did not end by exhaustion of the targeted nodes", name, m[1], m[2], len(p.failing), healthy)
 				}
 			}
 			mc.Outcome("incomplete")
